@@ -193,7 +193,8 @@ def run(ctx):
         else:
             oki += 1
     srv.shutdown()
-    ctx.cover(evaluations=len(cases) + len(sample) + len(meta), distinct=okd + okr + oki, sample=cases[0])
+    # evaluations = trees listed + database resolutions observed + install requests; distinct_nontrivial = those that matched the specification
+    ctx.cover(evaluations=len(cases) + sum(len(c["dbs"]) for c in sample) + len(meta), distinct=okd + okr + oki, sample=cases[0])
     ctx.notes.update({"trees": len(cases), "trees_discovered_as_expected": okd, "cli_resolutions": okr, "cli_installs": oki,
                       "trees_with_dashed_names": sum(1 for c in cases if any("-" in p["name"] for p in c["tree"])),
                       "resolutions_expected_none": sum(1 for c in sample for d in c["dbs"] if d["expect"] == "none")})
